@@ -86,7 +86,59 @@
      a retained slice), FillHeld (the caller overwrites a whole owned slice).  Invariants HeldOK,
      AliasCoherent (a live Bytes alias IS data, a live Next alias ends in prev, at most one of the
      latter).  The trace specification compares the current contents of every retained slice
-     (`hv`) with `held` after every logged step.                                                  *)
+     (`hv`) with `held` after every logged step.
+
+   COLLABORATORS  (the io.Reader handed to ReadFrom, the io.Writer handed to WriteTo)
+     What a collaborator RECEIVES is part of the observation, and a collaborator may call methods of
+     the very buffer it is serving from inside its Read / Write ("re-entrancy").  bytes.Buffer's
+     documentation is silent about the latter; the reference is its source (Go 1.23):
+
+       WriteTo   lastRead = invalid; if Len() > 0: ONE call w.Write(buf[off:]) with the whole unread
+                 portion (never a second call, whatever the first one returned); afterwards, with
+                 (m, e) its answer and nBytes the length BEFORE the call:  m > nBytes -> panic;
+                 off += m  (relative to wherever the read point is NOW);  e # nil -> return (m, e);
+                 m # nBytes -> ErrShortWrite;  otherwise Reset().   So inside Write every method is
+                 legal (the struct is consistent, lastRead invalid) and the final state is: the
+                 state the nested calls left, its first m unread bytes consumed WITHOUT touching
+                 lastRead (a nested ReadRune stays unreadable-back: UnreadRune then steps back over
+                 the last bytes the writer accepted), or the empty buffer when the writer accepted
+                 everything it was offered (bytes appended from inside are dropped by that Reset).
+                 No capacity enters: OpWriteToRe.  UNDEFINED (left out, `und`): the writer claims
+                 more bytes than are still unread after its own nested calls consumed / truncated
+                 them and the call does not end in Reset - bytes.Buffer is left with off > len(buf)
+                 (negative Len()).  A writer that claims more than it was offered: panic, as before.
+       ReadFrom  lastRead = invalid; loop: i = grow(MinRead) (reset when empty, reslice, slide or
+                 reallocate); buf = buf[:i]; (m, e) = r.Read(buf[i:cap(buf)]) - ALL the spare
+                 capacity, at least MinRead bytes; m < 0 -> panic; buf = buf[:i+m]; EOF -> return
+                 nil; e # nil -> return e.  Read is called again and again until it answers with
+                 an error ((0, nil) included).  Inside Read every method is legal again; what counts
+                 afterwards is that ReadFrom re-reads b.buf but keeps the ABSOLUTE index i: the end
+                 of the contents is put at storage position i+m of whatever the storage is now.
+                 Stated here as a "window" (operators Win...): the abstract state + off (absolute position of
+                 the read point; input, observed as Cap-Available-Len on entry of Read) + tail (the
+                 bytes known to follow the end of the contents in the storage: what the reader
+                 stored into p before it called back, contents cut off by a nested Truncate / Reset)
+                 + same (the storage is still the one p points into).  Nested calls move it:
+                   reads / unreads        off moves with the read point
+                   a write that fits Available() (input)   appends over the tail
+                   a write / Grow that does not fit        slide or reallocation: off = 0, tail unknown,
+                                          same only if Cap() did not change (inputs cap, cap2)
+                   Truncate(n)            the cut-off bytes become the tail
+                   Reset / read on empty  off = 0; the old contents become the tail if off was 0
+                 On return the reader's m bytes are stored at i (if it stores after calling back and
+                 p is still in the storage) and the contents become the first i+m-off bytes of
+                 contents \o tail.  E.g. a reader that stores "hello", then makes the buffer
+                 reallocate by writing 600 x "x": contents = old contents \o "xxxxx".  lastRead and
+                 the bytes in front of the read point are what the nested calls left.
+                 UNDEFINED (left out, `und`): the new end lies before the read point (negative
+                 Len()), or beyond what is known to be in the storage (spare capacity nobody wrote:
+                 zeroes of a fresh allocation, consumed bytes exposed again by Reset with off > 0,
+                 debris of a slide) - all of it deterministic in bytes.Buffer but nothing its
+                 documentation or this property speak about.  Nested ReadFrom / WriteTo are not driven.
+     Operators: DoEv (dispatch of a call given as a record; shared with the trace specification),
+     NestRun / WinStep (nested calls), OpWriteToRe, OpReadFromRe.  The exhaustive model executes the
+     nested scripts of the constant Nests inside the collaborator (actions WriteToRe, ReadFromRe;
+     ReadFromRe only where the outcome does not depend on off).                                   *)
 EXTENDS Integers, Sequences, FiniteSets, TLC
 
 CONSTANTS
@@ -100,7 +152,10 @@ CONSTANTS
     DecBytes,     \* set of bytes: all 4-byte strings over it are cross-checked against Decode
     Hold,         \* exhaustive model: how many results the caller keeps (oldest forgotten first)
     Retain,       \* exhaustive model: names of the calls whose result / argument the caller keeps
-    PokeVals      \* exhaustive model: byte values the caller stores through a kept slice
+    PokeVals,     \* exhaustive model: byte values the caller stores through a kept slice
+    Nests,        \* exhaustive model: sequence of scripts (sequences of call records) a collaborator runs on the buffer from inside Read / Write
+    RePay,        \* exhaustive model: indexes into Payloads a re-entering reader delivers
+    ReFins        \* exhaustive model: how re-entering collaborators answer (subset of {"short", "err"}; "ok" / "eof" always)
 
 VARIABLES st, held
 
@@ -265,6 +320,139 @@ OpContents(s) == R(s, 0, 0, s.data, Nil, NoPanic)                \* Bytes() and 
 OpNilString(s) == R(s, 0, 0, <<60, 110, 105, 108, 62>>, Nil, NoPanic)   \* String() on a nil pointer: "<nil>"
 
 -----------------------------------------------------------------------------
+(* collaborators: what they receive, and calls of the same buffer from inside Read / Write (see header) *)
+
+\* a call given as a record [op, n, b, avail, ...] (a line of a recorded trace, a nested call of a
+\* collaborator, an element of a script of Nests)
+DoEv(s, e) ==
+    CASE e.op \in {"Write", "WriteString"} -> OpWrite(s, e.b)
+      [] e.op = "WriteByte" -> OpWriteByte(s, e.n)
+      [] e.op = "WriteRune" -> OpWriteRune(s, e.n)
+      [] e.op = "Read" -> OpRead(s, e.n)
+      [] e.op = "Next" -> OpNext(s, e.n)
+      [] e.op = "ReadByte" -> OpReadByte(s)
+      [] e.op = "ReadRune" -> OpReadRune(s)
+      [] e.op = "UnreadByte" -> OpUnreadByte(s)
+      [] e.op = "UnreadRune" -> OpUnreadRune(s)
+      [] e.op \in {"ReadBytes", "ReadString"} -> OpReadSlice(s, e.n)
+      [] e.op = "Truncate" -> OpTruncate(s, e.n)
+      [] e.op = "Reset" -> OpReset(s)
+      [] e.op = "Grow" -> OpGrow(s, e.n, e.avail)
+      [] e.op = "Len" -> OpLen(s)
+      [] e.op \in {"Bytes", "String"} -> OpContents(s)
+
+NestedOps == {"Write", "WriteString", "WriteByte", "WriteRune", "Read", "Next", "ReadByte", "ReadRune", "UnreadByte",
+              "UnreadRune", "ReadBytes", "ReadString", "Truncate", "Reset", "Grow", "Len", "Bytes", "String"}
+
+\* what the writer sees: exactly one Write with the whole unread portion, none on an empty buffer
+WriterLens(s) == IF s.data = <<>> THEN <<>> ELSE <<Len(s.data)>>
+
+\* the window of a running Read (header): s abstract state, off absolute read point, tail known bytes
+\* behind the end of the contents, same: p still points into the storage
+Win(s, off, tail) == [s |-> s, off |-> off, tail |-> tail, same |-> TRUE]
+WinReset(w, s2) == [w EXCEPT !.s = s2, !.off = 0, !.tail = IF w.off = 0 THEN w.s.data \o w.tail ELSE <<>>]
+WinMoved(w, s2, e) == [w EXCEPT !.s = s2, !.off = 0, !.tail = <<>>, !.same = w.same /\ e.cap2 = e.cap]
+\* bytes of room a write call asks for (WriteRune of a multi-byte rune: utf8.UTFMax)
+Room(e) == CASE e.op \in {"Write", "WriteString"} -> Len(e.b)
+             [] e.op = "WriteByte" -> 1
+             [] e.op = "WriteRune" -> IF e.n >= 0 /\ e.n < 128 THEN 1 ELSE 4
+\* grow's first step: an empty buffer whose read point is not at 0 is reset
+WinEmptyReset(w) == w.s.data = <<>> /\ w.off # 0
+\* Inside a window the normal form of prev is suspended: the end of the contents may later be put
+\* back (Splice) without any byte being consumed, so a byte in front of the read point that a write
+\* made unobservable can become observable again.  Keep(w, s2): the read point did not move - the
+\* bytes in front of it are still the ones known before the call.
+RawSt(d, l, p) == [data |-> d, lr |-> l, prev |-> p]
+Keep(w, s2) == IF s2.prev = <<>> /\ w.s.prev # <<>>
+               THEN [s2 EXCEPT !.prev = LastK(w.s.prev, IF s2.lr > 0 THEN s2.lr ELSE 1)] ELSE s2
+WinStep(w, e) ==
+    LET o == DoEv(w.s, e)
+        l0 == Len(w.s.data)
+        l1 == Len(o.st.data)
+        moved == [w EXCEPT !.s = IF l0 = l1 THEN Keep(w, o.st) ELSE o.st, !.off = w.off + l0 - l1]   \* the read point moved, the end stayed
+    IN CASE e.op \in {"Len", "Bytes", "String"} -> w
+         [] e.op \in {"Read", "ReadByte", "ReadRune"} -> IF l0 = 0 THEN WinReset(w, o.st) ELSE moved
+         [] e.op \in {"Next", "ReadBytes", "ReadString", "UnreadByte", "UnreadRune"} -> moved
+         [] e.op = "Reset" -> WinReset(w, o.st)
+         [] e.op = "Truncate" -> IF e.n = 0 THEN WinReset(w, o.st)
+                                 ELSE IF o.pan # NoPanic THEN [w EXCEPT !.s = Keep(w, o.st)]
+                                 ELSE [w EXCEPT !.s = Keep(w, o.st), !.tail = Drop(w.s.data, e.n) \o w.tail]
+         [] e.op \in {"Write", "WriteString", "WriteByte", "WriteRune"} ->
+                IF Room(e) <= e.avail THEN [w EXCEPT !.s = Keep(w, o.st), !.tail = Drop(w.tail, l1 - l0)]
+                ELSE IF WinEmptyReset(w) /\ Room(e) <= e.cap THEN [w EXCEPT !.s = [o.st EXCEPT !.prev = <<>>], !.off = 0, !.tail = <<>>]
+                ELSE WinMoved(w, [o.st EXCEPT !.prev = <<>>], e)
+         [] e.op = "Grow" ->
+                IF e.n < 0 THEN w
+                ELSE LET w1 == IF WinEmptyReset(w) THEN [w EXCEPT !.s = o.st, !.off = 0, !.tail = <<>>] ELSE [w EXCEPT !.s = Keep(w, o.st)]
+                         room == IF WinEmptyReset(w) THEN e.cap ELSE e.avail
+                     IN IF e.n >= Huge \/ e.n <= room THEN w1 ELSE WinMoved(w1, [o.st EXCEPT !.prev = <<>>], e)
+
+\* the nested calls of one Read / Write, in order: [w |-> window afterwards, outs |-> the model's outcome of each]
+RECURSIVE NestRun(_, _, _)
+NestRun(w, nest, outs) ==
+    IF nest = <<>> THEN [w |-> w, outs |-> outs]
+    ELSE NestRun(WinStep(w, Head(nest)), Tail(nest), Append(outs, DoEv(w.s, Head(nest))))
+NestLegal(nest) == \A k \in DOMAIN nest : nest[k].op \in NestedOps
+
+RR(o, und, outs) == [o |-> o, und |-> und, outs |-> outs]
+
+\* WriteTo(w) whose writer runs the calls `nest` on the buffer from inside its (only) Write and
+\* then answers (wn, werr)
+OpWriteToRe(s, nest, wn, werr) ==
+    IF s.data = <<>> THEN RR(R(Fresh, 0, 0, <<>>, Nil, NoPanic), FALSE, <<>>)
+    ELSE LET run == NestRun(Win(RawSt(s.data, 0, LastK(s.prev, 1)), 0, <<>>), nest, <<>>)
+             s1 == run.w.s
+         IN IF ~NestLegal(nest) THEN RR(Ok(s), TRUE, <<>>)
+            ELSE IF wn > Len(s.data) THEN RR(R(Mk(s1.data, s1.lr, s1.prev), 0, 0, <<>>, Nil, PanWriteTo), FALSE, run.outs)
+            ELSE IF wn > Len(s1.data)
+                 THEN IF werr = Nil /\ wn = Len(s.data) THEN RR(R(Fresh, wn, 0, <<>>, Nil, NoPanic), FALSE, run.outs)
+                      ELSE RR(Ok(s1), TRUE, run.outs)                             \* off > len(buf): undefined
+            ELSE LET s2 == Eat(s1, wn, s1.lr)
+                 IN IF werr # Nil THEN RR(R(s2, wn, 0, <<>>, werr, NoPanic), FALSE, run.outs)
+                    ELSE IF wn # Len(s.data) THEN RR(R(s2, wn, 0, <<>>, ErrShortWrite, NoPanic), FALSE, run.outs)
+                    ELSE RR(R(Fresh, wn, 0, <<>>, Nil, NoPanic), FALSE, run.outs)
+
+\* the end of one Read: the reader's bytes c land at absolute position i (if stored after the
+\* nested calls), the contents end at i + Len(c)
+Splice(w, i, c, order) ==
+    LET comb0 == w.s.data \o w.tail
+        pos == i - w.off
+        late == order = "post" /\ w.same /\ c # <<>>
+        comb == IF late /\ pos >= 0 /\ pos <= Len(comb0) THEN Take(comb0, pos) \o c \o Drop(comb0, pos + Len(c)) ELSE comb0
+        nl == i + Len(c) - w.off
+        \* (last clause: a byte in front of the read point becomes observable which the model has
+        \* not kept - it was consumed before this ReadFrom, under the normal form; no verdict)
+        und == nl < 0 \/ nl > Len(comb) \/ (late /\ pos < 0)
+               \/ (w.off > 0 /\ w.s.prev = <<>> /\ (nl = 0 \/ w.s.lr # 0))
+    IN [und |-> und, s |-> IF und THEN w.s ELSE RawSt(Take(comb, nl), w.s.lr, w.s.prev)]
+
+\* ReadFrom(r) as the sequence of Read calls r received: calls[j] = [off, c, fin, order, nest]:
+\*   off    absolute read point on entry (input);  c  the bytes r stored (it returns Len(c));
+\*   fin    "more" (nil) / "eof" / "err" / "neg" (r returns -1);  order "pre": r stores c and then
+\*   calls back, "post": the other way round;  nest  the calls it makes.
+\* The last call, and only the last, has fin # "more".
+RECURSIVE ReadLoop(_, _, _, _, _, _)
+ReadLoop(s, woff, calls, j, total, outs) ==
+    IF j > Len(calls) THEN RR(Ok(s), TRUE, outs)                                  \* (a log without a final answer)
+    ELSE LET call == calls[j]
+             sg == IF call.off = 0 THEN RawSt(s.data, IF j = 1 THEN 0 ELSE s.lr, <<>>)   \* grow(MinRead) moved the data (or nothing was in front)
+                   ELSE IF j = 1 THEN RawSt(s.data, 0, LastK(s.prev, 1))            \* lastRead = invalid; nothing moved
+                   ELSE s
+             sr == IF j > 1 /\ s.data = <<>> /\ woff # 0 THEN Fresh ELSE sg           \* grow: reset when empty
+             run == NestRun(Win(sr, call.off, IF call.order = "pre" THEN call.c ELSE <<>>), call.nest, outs)
+             i == call.off + Len(sr.data)
+             sp == Splice(run.w, i, call.c, call.order)
+             n2 == total + Len(call.c)
+             norm(x) == Mk(x.data, x.lr, x.prev)
+         IN IF ~NestLegal(call.nest) THEN RR(Ok(s), TRUE, outs)
+            ELSE IF call.fin = "neg" THEN RR(R(norm(run.w.s), total, 0, <<>>, Nil, PanNegRead), FALSE, run.outs)
+            ELSE IF sp.und THEN RR(Ok(s), TRUE, run.outs)
+            ELSE IF call.fin = "eof" THEN RR(R(norm(sp.s), n2, 0, <<>>, Nil, NoPanic), FALSE, run.outs)
+            ELSE IF call.fin = "err" THEN RR(R(norm(sp.s), n2, 0, <<>>, "injected", NoPanic), FALSE, run.outs)
+            ELSE ReadLoop(sp.s, run.w.off, calls, j + 1, n2, run.outs)
+OpReadFromRe(s, calls) == ReadLoop(s, 0, calls, 1, 0, <<>>)
+
+-----------------------------------------------------------------------------
 (* ownership: the byte slices the caller keeps (see header) *)
 
 Observers == {"Len", "Bytes", "String", "NilString"}        \* calls that do not modify the buffer
@@ -337,6 +525,19 @@ WriterCount(s, m, fin) == CASE fin = "ok" -> Len(s.data) [] fin = "over" -> Len(
                             [] OTHER -> MinI(m, Len(s.data))
 WriteTo(m, fin) == LET o == OpWriteTo(st, WriterCount(st, m, fin), IF fin = "err" THEN "injected" ELSE Nil)
                    IN st' = o.st /\ held' = HC("WriteTo", o, <<>>)
+\* collaborators that call back: the writer / reader runs the script Nests[j] on the buffer from inside
+\* its Write / its Read (the reader: before or after storing Payloads[k], ending with fin in the same call)
+WriteToRe(j, m, fin) ==
+    LET o == OpWriteToRe(st, Nests[j], WriterCount(st, m, fin), IF fin = "err" THEN "injected" ELSE Nil)
+    IN /\ st.data # <<>> /\ ~o.und /\ Len(o.o.st.data) + Len(o.o.st.prev) <= MaxLen    \* (an Unread* may put prev back)
+       /\ st' = o.o.st /\ held' = HC("WriteTo", o.o, <<>>)
+ReCall(k, fin, j, order, off) == <<[off |-> off, c |-> Payloads[k], fin |-> fin, order |-> order, nest |-> Nests[j]]>>
+ReadFromRe(k, fin, j, order) ==
+    LET a == OpReadFromRe(st, ReCall(k, fin, j, order, 0))
+        b == OpReadFromRe(st, ReCall(k, fin, j, order, 3))
+    IN /\ ~a.und /\ ~b.und /\ a.o = b.o                       \* defined, and not a matter of where the storage begins
+       /\ Len(a.o.st.data) + Len(a.o.st.prev) <= MaxLen
+       /\ st' = a.o.st /\ held' = HC("ReadFrom", a.o, <<>>)
 Len_ == st' = OpLen(st).st /\ held' = HC("Len", OpLen(st), <<>>)
 Bytes_ == st' = OpContents(st).st /\ held' = HC("Bytes", OpContents(st), <<>>)
 String_ == st' = OpContents(st).st /\ held' = HC("String", OpContents(st), <<>>)
@@ -363,6 +564,9 @@ Next ==
     \/ \E k \in 1..Len(Payloads), fin \in {"eof", "err", "neg"} : ReadFrom(k, fin)
     \/ \E fin \in {"ok", "over"} : WriteTo(0, fin)
     \/ \E m \in 0..MaxLen, fin \in {"short", "err"} : WriteTo(m, fin)
+    \/ \E j \in 1..Len(Nests) : WriteToRe(j, 0, "ok")
+    \/ \E j \in 1..Len(Nests), m \in 0..1, fin \in ReFins : WriteToRe(j, m, fin)
+    \/ \E k \in RePay, fin \in (ReFins \cap {"err"}) \cup {"eof"}, j \in 1..Len(Nests), order \in {"pre", "post"} : ReadFromRe(k, fin, j, order)
     \/ Len_ \/ Bytes_ \/ String_
     \/ \E k \in 1..Hold, at \in {"first", "last"}, v \in PokeVals : Poke(k, at, v)
 
@@ -390,7 +594,9 @@ TypeOK == /\ IsByteSeq(st.data) /\ IsByteSeq(st.prev) /\ Len(st.data) <= MaxLen
           /\ st.lr \in -1..4
 
 PrevShape ==
-    /\ st.lr > 0 => Len(st.prev) \in {0, st.lr}
+    \* (all of the rune, or nothing after Grow moved the data; a part of it only when a collaborator
+    \* reads a rune from inside, makes the storage move, and the outer WriteTo then consumes fewer bytes)
+    /\ st.lr > 0 => Len(st.prev) <= st.lr
     /\ st.lr <= 0 => Len(st.prev) <= 1
     /\ (st.lr = 0 /\ st.data # <<>>) => st.prev = <<>>
     \* a recorded read with nothing in front of the read point on a non-empty buffer can only
@@ -452,6 +658,31 @@ ResetLaw ==
     /\ OpReset(st).st = Fresh /\ OpTruncate(st, 0).st = Fresh
     /\ OpWriteTo(st, Len(st.data), Nil).st = Fresh
     /\ st.data = <<>> => (OpRead(st, 0).st = Fresh /\ OpReadByte(st).st = Fresh /\ OpReadRune(st).st = Fresh)
+
+\* collaborators: without nested calls the re-entrant operators are the plain ones, wherever the
+\* storage begins and whenever the reader stores; a delivery in two Read calls (or with an empty
+\* answer in between) equals one; observers inside change nothing; a writer that accepts all it was
+\* offered leaves the empty buffer whatever it did from inside; a reader that writes (fitting) before
+\* it stores is overwritten by what it stores
+ObsNest == <<[op |-> "Len", n |-> 0], [op |-> "Bytes", n |-> 0], [op |-> "String", n |-> 0]>>
+RC(off, c, fin, order, nest) == [off |-> off, c |-> c, fin |-> fin, order |-> order, nest |-> nest]
+ReLaws ==
+    /\ \A k \in 1..Len(Payloads), off \in (IF st.data = <<>> THEN {0} ELSE {0, 2}), order \in {"pre", "post"}, fin \in {"eof", "err"} :
+         LET p == Payloads[k]
+             one == OpReadFromRe(st, <<RC(off, p, fin, order, <<>>)>>)
+         IN /\ ~one.und /\ one.o = OpReadFrom(st, p, fin)
+            /\ OpReadFromRe(st, <<RC(off, p, fin, order, ObsNest)>>).o = one.o
+            /\ Len(p) > 1 => OpReadFromRe(st, <<RC(off, Take(p, 1), "more", order, <<>>), RC(off, <<>>, "more", "pre", <<>>),
+                                                 RC(off, Drop(p, 1), fin, "post", <<>>)>>).o = one.o
+            /\ OpReadFromRe(st, <<RC(off, p, "more", order, <<>>), RC(off, <<>>, "neg", order, <<>>)>>).o
+                 = OpReadFrom(st, p, "neg")
+            /\ OpReadFromRe(st, <<RC(off, p, fin, "post", <<[op |-> "WriteByte", n |-> 7, avail |-> 512]>>)>>).o.st.data
+                 = IF p = <<>> THEN st.data ELSE st.data \o p
+    /\ \A m \in 0..Len(st.data) + 1 : \A we \in {Nil, "injected"} :
+         /\ OpWriteToRe(st, <<>>, m, we).o = OpWriteTo(st, m, we) /\ ~OpWriteToRe(st, <<>>, m, we).und
+         /\ OpWriteToRe(st, ObsNest, m, we).o = OpWriteTo(st, m, we)
+    /\ \A j \in 1..Len(Nests) : LET o == OpWriteToRe(st, Nests[j], Len(st.data), Nil)
+                                IN ~o.und /\ o.o.st = Fresh /\ o.o.n = Len(st.data) /\ o.o.err = Nil
 
 \* shape of the caller's side
 HeldOK == /\ Len(held) <= Hold
